@@ -116,8 +116,10 @@ def ap_free_args(ap: dict) -> tuple[set[int], dict]:
     if main["args"] is None:
         # unspecified: main takes every argument nobody else claims
         claimed = set()
-        for g in ap["graphs"][1:]:
-            claimed |= set(g["args"] or [])
+        reach = ap_reachable(ap)
+        for n in reach:
+            for g in ap["nodes"][n]["s"]:
+                claimed |= set(ap["graphs"][g]["args"] or [])
         return set(a for a in s if a in claimed), memo
     return s - set(main["args"]), memo
 
@@ -424,14 +426,20 @@ def observe(R: Real) -> dict:
 
     def walk_graph(gp, g_id):
         trace.append(["enter", g_id])
-        for vi in gp.input:
-            trace.append(["arg", R.node_id[var_of_name[vi.name]._op]])
+        ids = [R.node_id[var_of_name[vi.name]._op] for vi in gp.input]
+        if R.graphs[g_id].requested_arguments is None:
+            ids = sorted(ids)  # `list(all - claimed)`: set order
+        for a in ids:
+            trace.append(["arg", a])
         walk_protos(gp.node, g_id)
         trace.append(["leave", g_id])
 
     trace.append(["enter", 0])
-    for v in res.arguments:
-        trace.append(["arg", R.node_id[v._op]])
+    ids = [R.node_id[v._op] for v in res.arguments]
+    if R.main.requested_arguments is None:
+        ids = sorted(ids)  # `list(all - claimed)`: set order
+    for a in ids:
+        trace.append(["arg", a])
     for node, protos in res.nodes.items():
         if not protos:  # internal nodes without a NodeProto (initializers)
             trace.append(["emit", vid(node)])
